@@ -16,6 +16,17 @@ package entrypoint
 //@ macro orbiterStoreUnchanged() = ks_i32 == old(ks_i32) && ks_pair == old(ks_pair) && item_set == old(item_set) && item_params == old(item_params) &&
 //@                                 amt_has == old(amt_has) && amt_val == old(amt_val) && cnt_has == old(cnt_has) && cnt_val == old(cnt_val) && out_n == old(out_n)
 
+// The transfer in closed form (C02, C11).
+//@ macro theOp() = ptrto(adapt_op, "*types.OrbiterPacket")
+//@ macro pktAmount(p) = parseInt(pktData(p).Amount)
+//@ macro sweepLedger(b, D) = moveIf(bal(b, core.ModuleAddress, D) > 0, b, core.ModuleAddress, dustAddr(), D, bal(b, core.ModuleAddress, D))
+//@ macro creditLedger(b, p) = move(b, escrowAddr(p.DestinationPort, p.DestinationChannel), core.ModuleAddress, pktDenom(p), pktAmount(p))
+//@ macro xferEffect(p, pl) = dispatchEffect(creditLedger(sweepLedger(old(bank), pktDenom(p)), p), pktAmount(p), pktDenom(p), pl)
+//   x is a recipient of some fee entry of one of the (at most two) actions
+//@ macro feeRcptAt(x, fs, j) = j < len(fs) && x == decodeAddr(fs[j].Recipient)
+//@ macro feeRcpt(x, a) = feeRcptAt(x, actFs(a), 0) || feeRcptAt(x, actFs(a), 1) || feeRcptAt(x, actFs(a), 2) || feeRcptAt(x, actFs(a), 3) || feeRcptAt(x, actFs(a), 4)
+//@ macro feeRcpt2(x, pl) = (plN(pl) >= 1 && feeRcpt(x, pl.PreActions[0])) || (plN(pl) >= 2 && feeRcpt(x, pl.PreActions[1]))
+
 //@ func (i IBCMiddleware) OnRecvPacket(ctx, packet, relayer) (ack)
 //@   requires[inv] i.IBCModule != nil && i.payloadAdapter != nil
 //@   requires[C01] bankNonneg(bank)
@@ -38,6 +49,23 @@ package entrypoint
 //   has left nothing of the delivered coin on the orbiter account, and no denomination grew there.
 //@   ensures[C01] ackSuccess(ack) && forOrb(packet) ==> bal(bank, core.ModuleAddress, pktDenom(packet)) == 0
 //@   ensures[C01] ackSuccess(ack) && forOrb(packet) ==> forall d string :: bal(bank, core.ModuleAddress, d) <= bal(old(bank), core.ModuleAddress, d)
+//
+//   C02: on a successful orbiter transfer the final ledger is, in closed form, the initial ledger after
+//   (1) the sweep of the orbiter's balance of the transferred denomination to the dust collector,
+//   (2) the ICS-20 release of the packet's coin from the channel escrow to the orbiter account,
+//   (3) the fee payments of the payload's actions, in order, and
+//   (4) the outgoing route taking the remaining amount out of the orbiter account (burn / lock / credit);
+//   the remaining amount is positive and is exactly what the orbiter holds when the route is entered.
+//   The clauses after the first spell out what the statement lists: supply changes only by the CCTP
+//   burn; balances in other denominations do not change; accounts other than the escrow, the orbiter,
+//   the dust collector, the fee recipients and the route's sink do not change.
+//@   ensures[C02] ackSuccess(ack) && forOrb(packet) ==> theOp() != nil && theOp().Payload != nil && payloadOK(theOp().Payload) && xferEffect(packet, theOp().Payload)
+//@   ensures[C02] ackSuccess(ack) && forOrb(packet) ==> forall d string :: supply(bank, d) == supply(old(bank), d) - ite(isCCTPAttr(plAttr(theOp().Payload)) && d == pktDenom(packet), plOut(pktAmount(packet), theOp().Payload), 0)
+//@   ensures[C02] ackSuccess(ack) && forOrb(packet) ==> forall x Addr, d string :: d != pktDenom(packet) ==> bal(bank, x, d) == bal(old(bank), x, d)
+//@   ensures[C02] ackSuccess(ack) && forOrb(packet) ==> forall x Addr :: x != escrowAddr(packet.DestinationPort, packet.DestinationChannel) && x != core.ModuleAddress && x != dustAddr() &&
+//@                  !feeRcpt2(x, theOp().Payload) && !(isHypAttr(plAttr(theOp().Payload)) && x == warpAccount(hexstr(toarray32(cast(plAttr(theOp().Payload), "*types/controller/forwarding.HypAttributes").TokenId)))) &&
+//@                  !(isIntAttr(plAttr(theOp().Payload)) && x == decodeAddr(cast(plAttr(theOp().Payload), "*types/controller/forwarding.InternalAttributes").Recipient)) ==>
+//@                  bal(bank, x, pktDenom(packet)) == bal(old(bank), x, pktDenom(packet))
 //
 //   C14: the receive path returns an acknowledgement for every input (the safety obligations - nil
 //   dereference, bounds, conversions, type assertions, explicit panics, panicking library calls - are
